@@ -10,6 +10,7 @@ mod replay;
 mod scen_api;
 mod scen_build;
 mod scen_file;
+mod scen_lev;
 mod scen_sink;
 mod taut;
 
@@ -69,6 +70,13 @@ fn record(args: &Args) {
             }
             let panics = s.panics;
             let (n, counts) = s.log.finish();
+            println!("{}", json!({"scenario": scen, "events": n, "counts": counts, "panics": panics}));
+        }
+        "c17" => {
+            let mut log = Log::create(&out);
+            scen_lev::c17(&mut log, seed, &tier);
+            let (n, counts) = log.finish();
+            let panics = counts.get("Panic").cloned().unwrap_or(0);
             println!("{}", json!({"scenario": scen, "events": n, "counts": counts, "panics": panics}));
         }
         "c12" | "c15" => {
